@@ -127,7 +127,17 @@ pub fn refprice(ncom: usize, facts: &[Fact], from: usize, to: usize, qd: u32) ->
     refprice_q(ncom, &g, from, to, qd)
 }
 
+thread_local! {
+    /// set by `refprice_q` when the search met an edge whose most recent price is exactly zero from the side that has no
+    /// reciprocal: whether an OLDER non-zero price may then be used in that direction is not something the statement fixes
+    static ZERO_REVERSE_SEEN: std::cell::Cell<bool> = const { std::cell::Cell::new(false) };
+}
+pub fn zero_reverse_seen() -> bool {
+    ZERO_REVERSE_SEEN.with(|z| z.get())
+}
+
 pub fn refprice_q(ncom: usize, facts: &[GFact], from: usize, to: usize, qd: u32) -> Option<Vec<Q>> {
+    ZERO_REVERSE_SEEN.with(|z| z.set(false));
     if from == to {
         return Some(vec![Q::ONE]);
     }
@@ -135,6 +145,9 @@ pub fn refprice_q(ncom: usize, facts: &[GFact], from: usize, to: usize, qd: u32)
     let mut edge: BTreeMap<(usize, usize), (bool, Vec<(u32, Q)>)> = BTreeMap::new();
     for f in facts {
         let k = (f.x.min(f.y), f.x.max(f.y));
+        if f.x > f.y && f.rate.is_zero() {
+            panic!("harness bug: a zero price must be stated as `1 x = 0 y` with x < y in the reference");
+        }
         let r = if f.x < f.y { f.rate } else { Q::ONE.div(f.rate) };
         let db = f.db;
         let e = edge.entry(k).or_insert((false, vec![]));
@@ -170,9 +183,17 @@ pub fn refprice_q(ncom: usize, facts: &[GFact], from: usize, to: usize, qd: u32)
                 let mut newrates = vec![];
                 for a in &acc.4 {
                     for r in rates {
+                        if cur > nx && r.is_zero() {
+                            // a price of zero has no reciprocal: the edge cannot be walked in this direction
+                            ZERO_REVERSE_SEEN.with(|z| z.set(true));
+                            continue;
+                        }
                         let rr = if cur < nx { *r } else { Q::ONE.div(*r) };
                         newrates.push(a.mul(rr));
                     }
+                }
+                if newrates.is_empty() {
+                    continue;
                 }
                 visited.push(nx);
                 dfs(nx, to, visited, usable, qd, n, (acc.0 + if *db { 0 } else { 1 }, acc.1 + 1, acc.2.max(st), acc.3 + st, newrates), out);
@@ -526,6 +547,68 @@ fn run(ctx: &mut Ctx) {
                 );
                 ctx.count("transitions", conv);
                 ctx.count("validated", conv);
+            }
+        }
+    }
+    // a dead end next to a chain: BBB -> CCC -> DDD are quoted (2, 5) on day 15; AAA has one quote only, of exactly zero,
+    // into one of the three (older or newer than the chain, first or last line of the database). AAA leads nowhere, but
+    // every conversion among BBB, CCC, DDD still has its chain and its value
+    {
+        for zero_into in 1..=3usize {
+            for zero_day in [10u32, 20] {
+                for zero_first in [false, true] {
+                    for chain_src in [Src::Db, Src::Cost] {
+                        if !ctx.next_is_mine() {
+                            ctx.skip_cases(1);
+                            continue;
+                        }
+                        let chain = vec![Fact { date: 15, x: 1, y: 2, rate: 2, src: chain_src }, Fact { date: 15, x: 2, y: 3, rate: 5, src: chain_src }];
+                        let (text, chain_db) = render(4, &chain);
+                        let zero_line = format!("P 2024/01/{} AAA 0 {}\n", zero_day, NAMES[zero_into]);
+                        let db = if zero_first { format!("{}{}", zero_line, chain_db) } else { format!("{}{}", chain_db, zero_line) };
+                        let mut conv = 0u64;
+                        ctx.case(
+                            || format!("{}-- price db --\n{}", text, db),
+                            || {
+                                std::fs::write(&dbpath, &db).expect("write price db");
+                                oka::with_ledger(&[(oka::ROOT, text.as_str())], oka::ROOT, Some(&dbpath), |r| {
+                                    let (l, c) = match r {
+                                        Ok(x) => x,
+                                        Err(e) => return Outcome::violation(format!("fact-ledger-rejected/{}", e.variant), format!("{}\n{:?}", e.rendered, e.chain)),
+                                    };
+                                    let rate = |from: usize, to: usize| -> Q {
+                                        // 1 BBB = 2 CCC, 1 CCC = 5 DDD (reciprocals are exact decimals)
+                                        let v = [Q::ONE, Q::int(2), Q::int(10)];
+                                        v[to - 1].div(v[from - 1])
+                                    };
+                                    for from in 1..=3usize {
+                                        for to in 1..=3usize {
+                                            for qd in [15u32, 20, 31] {
+                                                conv += 1;
+                                                let got = l.eval(c, &format!("6 {}", NAMES[from]), &EvalContext { date: oka::date(2024, 1, qd), exchange: Some(NAMES[to].to_string()) });
+                                                let want = rate(from, to).mul(Q::int(6));
+                                                let q = format!("6 {} -> {} as of 2024/01/{:02}", NAMES[from], NAMES[to], qd);
+                                                match got {
+                                                    Err(e) => return Outcome::violation("dead-end-zero-quote/conversion-failed-although-chain-exists", format!("{}: expected {} {}, got error {}", q, want, NAMES[to], e)),
+                                                    Ok(a) => {
+                                                        let m = oka::amount_to_qmap(&a);
+                                                        let v = m.get(NAMES[to]).copied().unwrap_or(Q::ZERO);
+                                                        if v != want || m.iter().any(|(k, x)| k != NAMES[to] && !x.is_zero()) {
+                                                            return Outcome::violation("dead-end-zero-quote/wrong-rate", format!("{}: expected {} {} got {}", q, want, NAMES[to], a.as_inline_display()));
+                                                        }
+                                                    }
+                                                }
+                                            }
+                                        }
+                                    }
+                                    Outcome::pass("dead-end-zero-quote/chain-unaffected")
+                                })
+                            },
+                        );
+                        ctx.count("transitions", conv);
+                        ctx.count("validated", conv);
+                    }
+                }
             }
         }
     }
